@@ -209,12 +209,20 @@ def isTrue : Option Bool → Bool
   | some true => true
   | _ => false
 
+/-- `self._cds_frames`: the frame list as given, `None` for a non-coding transcript -/
+def framesVal : Option (List Int × List Int × List CDSFrame) → PyVal
+  | none => .none
+  | some c => .list (c.2.2.map ofFrame)
+
+/-- `self.cds.guid if self.cds else None` -/
+def cdsGuidVal : Option CdsArgs → PyVal
+  | none => .none
+  | some c => .uuid (cdsGuid md5 c)
+
 def txDigestArgs (t : TxArgs) : List PyVal :=
-  [ofInts t.starts, ofInts t.ends, ofStrand t.strand,
-   (match t.cds with | none => .none | some c => .list (c.2.2.map ofFrame)),
+  [ofInts t.starts, ofInts t.ends, ofStrand t.strand, framesVal t.cds,
    qualsVal t.quals, ofOptStr t.transcriptId, ofOptStr t.transcriptSymbol, ofOptBiotype t.transcriptType,
-   ofOptStr t.proteinId, ofOptStr t.sequenceName, .bool (isTrue t.isPrimary),
-   (match t.cdsArgs with | none => .none | some c => .uuid (cdsGuid md5 c))]
+   ofOptStr t.proteinId, ofOptStr t.sequenceName, .bool (isTrue t.isPrimary), cdsGuidVal md5 t.cdsArgs]
 
 def txGuid (t : TxArgs) : Str := guidOf md5 (txDigestArgs md5 t)
 
